@@ -338,3 +338,61 @@ def open_flag_table(prog, chk, rid):
             chk.bad(rid, f, "open-flag-table:%s" % ("|".join(names) or "0"), where, "%s -> open(2) flags 0%o: %s" % (what, ofl, "; ".join(errs)), evals=len(seen))
         else:
             chk.ok(rid, f, "%s -> 0%o%s" % (what, ofl, ", lseek END" if seeks else ""), where, "guard-directed walk under the flag value", evals=len(seen))
+
+
+def run_thorough(prog, chk):
+    """C19.s (thorough) — SIB: the path decomposition functions locate their split point the same way.
+
+    getDirectoryName / getBaseName / getStem / getExtension each scan backwards for the last separator; recomposition
+    (directory name + separator + base name == path) holds only if they agree on where that separator is.  Compared: the start of the
+    backward scan and what happens to the scan pointer before the separator loop.  Residual false-alarm risk as for C01.g: a one-sided
+    but equivalent restructuring fires this rule, hence thorough tier only."""
+    chk.rule("C19.s", "SIB: getDirectoryName, getBaseName, getStem (and getExtension) start their backward separator scan at the same "
+                      "position and do not move the scan pointer before the separator loop", floor=3)
+    sigs = {}
+    for name in ("File::getDirectoryName", "File::getBaseName", "File::getStem", "File::getExtension"):
+        fs = [f for f in prog.functions.values() if f.name == name and f.file.endswith("File.cpp")]
+        if not fs:
+            continue
+        f = fs[0]
+        defs = q.local_defs(f)
+        # the separator loop: a loop block set that contains a comparison of `*p` with '/' (47)
+        loop, ptr = None, None
+        for b in f.blocks.values():
+            c = b.get("cond")
+            if c is None:
+                continue
+            for i in f.desc(c):
+                n = f.nodes[i]
+                if n["k"] == "BinaryOperator" and n.get("op") == "==" and fin.eval_expr(f, n["c"][1], {}) in (47, 92):
+                    l = f.nodes[f.strip(n["c"][0])]
+                    if l["k"] == "UnaryOperator" and l.get("op") == "*":
+                        base = C.base_local(f, l["c"][0])
+                        lb = C.loop_blocks(f, i)
+                        if base is not None and lb:
+                            cand = (min(lb), base)
+                            # several loops may test for separators (a pre-skip, then the split)
+                            if loop is None or max(lb) < max(loop):      # the last such loop: the one that performs the split
+                                loop, ptr = lb, base
+        if loop is None:
+            continue
+        inits = [q.no_casts(C.norm(f, init, {}, defs)) for kind, _n, init in defs.get(ptr["id"], []) if kind == "decl" and init is not None]
+        pre = []
+        for s in q.stores(f):
+            ln = f.nodes[f.strip(s.lhs)]
+            if ln["k"] == "DeclRefExpr" and ln["ref"]["id"] == ptr["id"] and (f.node_pos(s.node) or (None,))[0] not in loop:
+                if any(f.find_path(f.node_pos(s.node), {(b_, 0)}) is not None for b_ in loop):
+                    pre.append(q.no_casts(f.r(s.node)))
+        start = re.sub(r"\b%s\b" % re.escape(f.params[0]["n"]), "$path", inits[0]) if inits else "?"
+        sigs[name] = (start, tuple(pre), f)
+    if len(sigs) < 3:
+        raise AnalysisBroken("path decomposition functions not found (%s)" % sorted(sigs))
+    ref = sigs.get("File::getBaseName") or list(sigs.values())[0]
+    for name, (start, pre, f) in sorted(sigs.items()):
+        if (start, pre) == (ref[0], ref[1]):
+            chk.ok("C19.s", f, "%s scans back from %s" % (name.split("::")[-1], start[:50]), "%s:%s" % (f.file, f.line), "same scan start, pointer untouched before the loop", evals=2)
+        else:
+            chk.bad("C19.s", f, "split-point-differs-from-siblings", "%s:%s" % (f.file, f.line),
+                    "%s starts its separator scan at `%s`%s, getBaseName at `%s`%s: for paths on which the two differ (e.g. a trailing separator) "
+                    "directory name + separator + base name no longer recomposes the path" % (
+                        name.split("::")[-1], start[:50], (" after " + "; ".join(pre)[:60]) if pre else "", ref[0][:50], (" after " + "; ".join(ref[1])[:40]) if ref[1] else ""))
